@@ -175,8 +175,11 @@ def main():
                                   bool(spec['exit_on_exception'])}
     frames = [[]]
 
+    last_plan = [{}]
+
     def write_plan(plan):
         import glob
+        last_plan[0] = plan
         for old in glob.glob(plan_path + '.claim.*') + \
                 glob.glob(plan_path + '.answered'):
             try:
@@ -229,11 +232,32 @@ def main():
             s = Portfolio(names, environment=env, logic=L.QF_BV, **opts)
             try:
                 for cyc in spec['cycles']:
+                    write_plan(cyc['plan'])
                     for op in cyc['ops']:
                         if op[0] == 'assert':
                             f = B.build(B.from_json(op[1]), env)
                             s.add_assertion(f)
                             frames[-1].append(B.describe(f))
+                        elif op[0] == 'is_sat':
+                            f = B.build(B.from_json(op[1]), env)
+                            live0 = [b for fr in frames for b in fr]
+                            exp0 = truth(live0 + [B.describe(f)])
+                            # (the plan of the previous query is still in
+                            # force for this one)
+                            write_plan(cyc['plan'])
+                            watch.in_solve = True
+                            try:
+                                got0 = s.is_sat(f)
+                                emit(ev='solve', got=bool(got0),
+                                     exp=exp0 is not None, call='obj.is_sat',
+                                     plan=last_plan[0])
+                            except Exception as e:
+                                emit(ev='solve-raised',
+                                     exc=common.exc_name(e),
+                                     msg=str(e)[:200], plan=last_plan[0],
+                                     exp=exp0 is not None)
+                            finally:
+                                watch.in_solve = False
                         elif op[0] == 'push':
                             s.push()
                             frames.append([])
